@@ -32,7 +32,9 @@ REQUIRED = ["port_histories", "views_compared", "renames", "deletes",
             "readds", "stale_name_lookups", "stats_histories",
             "multipart_events", "interleaved_histories", "sequential_pairs",
             "features_refreshes", "early_port_status",
-            "other_messages_sharing_a_request_xid"]
+            "other_messages_sharing_a_request_xid", "views_read_inside_the_handler",
+            "nexus_level_stats_events_compared", "port_views_of_two_connections_compared",
+            "parts_on_a_second_connection"]
 TIMEOUT = {"quick": 900, "thorough": 7200}
 
 REASON_ADD, REASON_DELETE, REASON_MODIFY = 0, 1, 2
@@ -55,10 +57,30 @@ def check_view (fire, rep, view, model, what, former_names, former_hw):
       return False
     if sorted(iter(view)) != sorted(model):
       fire("%s iteration differs" % what, ""); return False
-    if sorted(p.port_no for p in view.values()) != sorted(model):
-      fire("%s values differ" % what, ""); return False
-    if sorted(k for k, v in view.items()) != sorted(model):
-      fire("%s items differ" % what, ""); return False
+    def tup (q): return (q.port_no, q.name, q.hw_addr.toRaw(), q.config, q.state)
+    want = sorted((n, p["name"], p["hw_addr"], p["config"], p["state"])
+                  for n, p in model.items())
+    coll = [("values()", lambda: sorted(tup(q) for q in view.values())),
+            ("items()", lambda: sorted(tup(v) for k, v in view.items())),
+            ("items() keys", lambda: sorted((k,) + tup(v)[1:] for k, v in view.items()))]
+    for nm_ in ("itervalues", "iteritems", "iterkeys"):
+      f_ = getattr(view, nm_, None)
+      if f_ is None: continue
+      if nm_ == "itervalues": coll.append(("itervalues()", lambda f_=f_: sorted(tup(q) for q in f_())))
+      elif nm_ == "iteritems": coll.append(("iteritems()", lambda f_=f_: sorted(tup(v) for k, v in f_())))
+      else: coll.append(("iterkeys()", lambda f_=f_: [(k,) + w[1:] for k, w in zip(sorted(f_()), want)]))
+    for cn, f_ in coll:
+      got_ = f_()
+      if got_ != want:
+        fire("%s %s returns other/stale port data" % (what, cn),
+             "got %r, model %r" % (got_[:3], want[:3])); return False
+    hk = getattr(view, "has_key", None)
+    if hk is not None:
+      for n, p in model.items():
+        if not hk(n) or not hk(p["name"]):
+          fire("%s has_key fails for an existing port" % what, repr(n)); return False
+      if hk(9999) or hk("no-such-port"):
+        fire("%s has_key finds an absent port" % what, ""); return False
     for n, p in model.items():
       for key, kind in ((n, "number"), (p["name"], "name"),
                         (EthAddr(p["hw_addr"]), "hw_addr")):
@@ -134,9 +156,26 @@ def run_ports (case, rep):
   if not check_view(fire, rep, con.ports, model, "current view",
                     former_names, former_hw):
     return True
+  # another switch with the very same initial ports: nothing that happens on
+  # the first connection shows in its view (and the other way round)
+  other = None
+  if case.get("second_connection"):
+    other = ctl.Peer(of_01)
+    other.handshake((case["dpid"] + 7) & ((1 << 64) - 1) or 7, initial)
+    other_model = {p["port_no"]: dict(p) for p in initial}
   events = []
-  con.addListenerByName("PortStatus", lambda e: events.append(
-    (e.ofp.reason, e.ofp.desc.port_no)))
+  inside = []
+  def on_ps (e):
+    events.append((e.ofp.reason, e.ofp.desc.port_no))
+    # what a handler sees when it looks at the connection's ports while the
+    # notification is being announced: the view with the notification applied
+    try:
+      v = e.connection.ports
+      n_ = e.ofp.desc.port_no
+      inside.append((sorted(v.keys()), (v[n_].name, v[n_].config) if n_ in v else None))
+    except Exception as ex:
+      inside.append(("raises", repr(ex)))
+  con.addListenerByName("PortStatus", on_ps)
   for step in case["steps"]:
     reason, n, nm, hw, cfg = step
     if reason == REASON_FEATURES:
@@ -170,6 +209,7 @@ def run_ports (case, rep):
     if events[before:] != [(reason, n)]:
       fire("port-status event not raised exactly once",
            repr(events[before:])); return True
+    seen_inside = inside[-1] if inside else None
     if reason == REASON_DELETE:
       if n in model:
         former_names.add(model[n]["name"]); former_hw.add(model[n]["hw_addr"])
@@ -184,12 +224,39 @@ def run_ports (case, rep):
                                 if s[0] != REASON_FEATURES):
         rep.count("readds"); nt = True
       model[n] = desc
+    want_inside = (sorted(model), (model[n]["name"], model[n]["config"]) if n in model else None)
+    rep.count("views_read_inside_the_handler")
+    if seen_inside != want_inside:
+      fire("port view as seen from inside the PortStatus handler lacks the "
+           "notification being announced",
+           "handler saw %r, the view with it applied is %r" % (seen_inside, want_inside))
+      return True
     if not check_view(fire, rep, con.ports, model, "current view",
                       former_names, former_hw):
       return True
     if not check_view(fire, rep, con.original_ports, original,
                       "original view", set(), set()):
       return True
+    if other is not None:
+      rep.count("port_views_of_two_connections_compared")
+      if not check_view(fire, rep, other.con.ports, other_model,
+                        "another connection's view", set(), set()):
+        return True
+      if len(case["steps"]) % 2 and reason != REASON_FEATURES:
+        # ... and a notification on the other one leaves this one alone
+        od = ctl.phy_port(n, name="o_%s" % nm, hw=hw, config=cfg, state=0)
+        oraw = ofwire.enc_message("port_status", dict(
+          xid=0, reason=REASON_DELETE if n in other_model and cfg else REASON_MODIFY, desc=od))
+        nb = len(events)
+        other.feed(oraw)
+        if n in other_model and cfg: del other_model[n]
+        else: other_model[n] = od
+        if len(events) != nb:
+          fire("a notification on another connection raised this connection's event", "")
+          return True
+        if not check_view(fire, rep, con.ports, model, "current view (after a "
+                          "notification on another connection)", former_names, former_hw):
+          return True
   return nt
 
 
@@ -235,7 +302,9 @@ def entry_id (stype, obj):
 
 def run_stats (case, rep):
   core, of_01 = ctl.boot_controller()
+  fired = []
   def fire (key, what):
+    fired.append(key)
     rep.violation("C17 stats: " + key, what, case)
   rep.count("stats_histories")
   peer = ctl.Peer(of_01)
@@ -253,16 +322,50 @@ def run_stats (case, rep):
       return h
     con.addListenerByName(name, mk(st))
   nexus_got = []
-  lid = core.openflow.addListenerByName("FlowStatsReceived",
-                                        lambda e: nexus_got.append(1))
+  lids = []
+  for st, name in EVENT_NAMES.items():
+    def mkn (st):
+      def h (e):
+        if e.connection is not con: return
+        try:
+          ids = [entry_id(st, x) for x in e.stats]
+        except Exception as ex:
+          ids = ["unreadable: %r" % (ex,)]
+        nexus_got.append((st, ids))
+      return h
+    lids.append(core.openflow.addListenerByName(name, mkn(st)))
+  # a second connection whose replies use the same transaction ids and types
+  other = None
+  other_got = []
+  if case.get("second_connection"):
+    other = ctl.Peer(of_01)
+    other.handshake(case["dpid"] + 1000, [ctl.phy_port(1)])
+    for st, name in EVENT_NAMES.items():
+      def mko (st):
+        def h (e):
+          try: other_got.append((st, [entry_id(st, x) for x in e.stats]))
+          except Exception as ex: other_got.append((st, ["unreadable"]))
+        return h
+      other.con.addListenerByName(name, mko(st))
   try:
-    return _run_stats_body(case, rep, fire, peer, got)
+    r = _run_stats_body(case, rep, fire, peer, got, other=other, other_got=other_got)
+    if got and not fired:
+      rep.count("nexus_level_stats_events_compared")
+      if nexus_got != got:
+        fire("statistics events on the nexus differ from those on the connection",
+             "nexus %r, connection %r" % (nexus_got[:3], got[:3]))
+    return r
   finally:
     # (one more nexus listener per case made the run quadratic)
-    core.openflow.removeListener(lid)
+    for lid in lids: core.openflow.removeListener(lid)
 
 
-NOISE_KINDS = 12
+NOISE_KINDS = 17
+
+
+def rep_has_fired (rep):
+  return bool(getattr(rep, "_c17_fired", False))
+
 
 
 def noise_message (nk, x):
@@ -281,10 +384,35 @@ def noise_message (nk, x):
   if nk == 10:
     return E("packet_in", dict(xid=x, buffer_id=0xffffffff, total_len=14, in_port=1,
                                reason=0, data=b"\xff" * 6 + b"\x02\0\0\0\0\x01\x88\xb5"))
-  return E("vendor", dict(xid=x, vendor=0x2320, data=b"\0\0\0\x0a" + b"\0" * 12))
+  if nk == 11:
+    return E("vendor", dict(xid=x, vendor=0x2320, data=b"\0\0\0\x0a" + b"\0" * 12))
+  if nk == 12:
+    # statistics replies of types that are never aggregated, announcing more
+    return E("stats_reply", dict(xid=x, type=0, flags=1, body=dict(
+      mfr_desc="m", hw_desc="h", sw_desc="s", serial_num="1", dp_desc="d")))
+  if nk == 13:
+    return E("stats_reply", dict(xid=x, type=2, flags=1, body=dict(
+      packet_count=1, byte_count=2, flow_count=3)))
+  if nk == 14:
+    m = dict(wildcards=(1 << 22) - 1, in_port=0, dl_src=b"\0" * 6, dl_dst=b"\0" * 6,
+             dl_vlan=0, dl_vlan_pcp=0, dl_type=0, nw_tos=0, nw_proto=0,
+             nw_src=0, nw_dst=0, tp_src=0, tp_dst=0)
+    return E("flow_removed", dict(xid=x, match=m, cookie=1, priority=1, reason=0,
+                                  duration_sec=1, duration_nsec=0, idle_timeout=0,
+                                  packet_count=1, byte_count=1))
+  if nk == 15:
+    return E("queue_get_config_reply", dict(xid=x, port=1, queues=[]))
+  # a features reply on the established connection (same datapath, one port)
+  return E("features_reply", dict(xid=x, datapath_id=NOISE_DPID[0], n_buffers=0,
+                                  n_tables=1, capabilities=0, actions=0xfff,
+                                  ports=[ctl.phy_port(1)]))
 
 
-def _run_stats_body (case, rep, fire, peer, got):
+NOISE_DPID = [0]
+
+
+def _run_stats_body (case, rep, fire, peer, got, other=None, other_got=None):
+  NOISE_DPID[0] = case["dpid"]
   # requests: list of dict(type, xid, parts=[[ids],...], complete)
   reqs = case["requests"]
   expected = []          # in completion order
@@ -322,6 +450,18 @@ def _run_stats_body (case, rep, fire, peer, got):
     raw = ofwire.enc_message("stats_reply", dict(
       xid=r["xid"], type=r["type"], flags=0 if last else 1,
       body=[make_entry(r["type"], i) for i in part]))
+    if other is not None and not last:
+      # the other switch is in the middle of a reply with the very same
+      # transaction id and type: its parts are its own
+      oraw = ofwire.enc_message("stats_reply", dict(
+        xid=r["xid"], type=r["type"], flags=1,
+        body=[make_entry(r["type"], 900000 + i) for i in part[:1]]))
+      nb = len(got)
+      other.feed(oraw)
+      rep.count("parts_on_a_second_connection")
+      if len(got) != nb:
+        fire("a part received on another connection raised this connection's event", "")
+        return True
     before = len(got)
     if not peer.feed(raw):
       fire("connection closed by a statistics reply", ""); return True
@@ -410,6 +550,23 @@ def gen_ports (rng, n, maxlen):
         cur = {q: (qn, qh) for q, qn, qh in plist}
         steps.append([REASON_FEATURES, plist, None, None, 0])
         continue
+      if rng.random() < 0.08:
+        # notifications that do not fit the current state: a DELETE for a
+        # port that is not there (deleted twice, or never reported), a DELETE
+        # whose description is not the current one, an ADD for a port that is
+        r2 = rng.random()
+        if no not in cur:
+          nm, hw = fresh(no)
+          steps.append([REASON_DELETE, no, nm, hw, 0])
+        elif r2 < 0.5:
+          cur.pop(no)
+          nm, hw = fresh(no)
+          steps.append([REASON_DELETE, no, rng.choice([nm, ""]), hw, 0])
+        else:
+          nm, hw = fresh(no)
+          cur[no] = (nm, hw)
+          steps.append([REASON_ADD, no, nm, hw, rng.choice([0, 1])])
+        continue
       if no in cur and r < 0.3:
         nm, hw = cur.pop(no)
         steps.append([REASON_DELETE, no, nm, hw, 0])
@@ -429,6 +586,7 @@ def gen_ports (rng, n, maxlen):
     case = dict(kind="ports", dpid=[0, 101, 102, 1 << 63, (1 << 64) - 1, 105, 106][ci % 7],
                 initial=initial, steps=steps)
     if early: case["early"] = early
+    if rng.random() < 0.3: case["second_connection"] = True
     yield case
 
 
@@ -450,6 +608,11 @@ def gen_stats (rng, n):
       st = rng.choice([1, 3, 4, 5])
       ne = rng.choice([0, 1, 2, 5, 9])
       ids = list(range(base, base + ne)); base += ne + 1
+      if rng.random() < 0.5:
+        # entries in no particular order of any of their fields, some of them
+        # twice ("all parts' entries in order" means as received)
+        rng.shuffle(ids)
+        if ids and rng.random() < 0.4: ids.insert(rng.randrange(len(ids) + 1), rng.choice(ids))
       k = rng.randrange(1, 7)
       reqs.append(dict(type=st, xid=rng.choice([7, 8, 9, rng.getrandbits(32)]),
                        parts=split(ids, k, rng), complete=True))
@@ -501,8 +664,10 @@ def gen_stats (rng, n):
       inter = False
       if reqs[0]["type"] in [r["type"] for r in reqs[1:]]:
         pass
-    yield dict(kind="stats", dpid=[0, 201, 202, (1 << 64) - 1, 204][ci % 5], requests=reqs, order=order,
-               interleaved=bool(inter), mode=mode)
+    case = dict(kind="stats", dpid=[0, 201, 202, (1 << 64) - 1 - 2000, 204][ci % 5], requests=reqs, order=order,
+                interleaved=bool(inter), mode=mode)
+    if rng.random() < 0.3: case["second_connection"] = True
+    yield case
 
 
 def plan (tier, seed):
